@@ -156,7 +156,10 @@ func (g *gen) constraint() *Con {
 	}
 	elem := pick(g, "conelem", tInt, tString, tByte, tF64, tAny)
 	feat := ""
-	switch g.intn(0, 17, "conform") {
+	switch g.intn(0, 18, "conform") {
+	case 18:
+		feat = "con_core_array"
+		add(arrayOf(g.intn(1, 5, "len"), pick(g, "arrelem", tInt, tInt, tString, tByte)), g.flip("tilde"))
 	case 0:
 		g.feat("con_any")
 		return &Con{Src: "any", Insts: []*Ty{tInt, tString, tAny, sliceOf(tInt), ptrTo(tInt), tError}, Feat: "con_any"}
